@@ -63,6 +63,8 @@ pub enum Res {
 pub struct Outcome {
     pub res: Res,
     pub counts: Counts,
+    /// never-written stack-vector slots that became visible during the call (hook)
+    pub exposed: u64,
     pub invoke: u64,
     pub ret: u64,
 }
@@ -75,29 +77,37 @@ struct ParseVisitor<W: World> {
 }
 
 impl<W: World> PairVisitor for ParseVisitor<W> {
-    type Out = (Res, Counts);
+    type Out = (Res, Counts, u64);
     #[inline(never)]
-    fn visit<'a, A, B>(self, a: A, b: B) -> (Res, Counts)
+    fn visit<'a, A, B>(self, a: A, b: B) -> (Res, Counts, u64)
     where
         A: Iterator<Item = &'a u8> + Clone,
         B: Iterator<Item = &'a u8> + Clone,
     {
         let (is64, exp) = (self.f64, self.exp);
+        let _ = W::take_exposed_slots();
         alloc::open_window(self.fill);
         let r = catch(move || if is64 { W::parse_f64(a, b, exp) } else { W::parse_f32(a, b, exp) });
         let counts = alloc::close_window();
+        let exposed = W::take_exposed_slots();
         (
             match r {
                 Ok(bits) => Res::Bits(bits),
                 Err(site) => Res::Panic(site),
             },
             counts,
+            exposed,
         )
     }
 }
 
 /// The plainest possible call: contiguous slices, no world, no yields.
 pub fn reference_call(world: u8, is_f64: bool, inp: &Input) -> (Res, Counts) {
+    let (r, c, _) = reference_call3(world, is_f64, inp);
+    (r, c)
+}
+
+fn reference_call3(world: u8, is_f64: bool, inp: &Input) -> (Res, Counts, u64) {
     let si = ShapeSpec::slice();
     let bi = Store::build(&inp.int, &si);
     let bf = Store::build(&inp.frac, &si);
@@ -112,7 +122,7 @@ pub fn reference_call(world: u8, is_f64: bool, inp: &Input) -> (Res, Counts) {
     })
 }
 
-fn shaped_call(world: u8, is_f64: bool, inp: &Input, si: &ShapeSpec, sf: &ShapeSpec, fill: Option<u64>) -> (Res, Counts) {
+fn shaped_call(world: u8, is_f64: bool, inp: &Input, si: &ShapeSpec, sf: &ShapeSpec, fill: Option<u64>) -> (Res, Counts, u64) {
     let bi = Store::build(&inp.int, si);
     let bf = Store::build(&inp.frac, sf);
     with_world!(world as usize, W, {
@@ -126,6 +136,18 @@ fn shaped_call(world: u8, is_f64: bool, inp: &Input, si: &ShapeSpec, sf: &ShapeS
     })
 }
 
+/// Patterns for stale stack memory: bytes that look like digits matter as much as random ones.
+pub fn stack_pattern(r: &mut Rng) -> u64 {
+    match r.below(8) {
+        0 => 0,
+        1 => u64::MAX,
+        2 => 0x3030_3030_3030_3030, // "00000000"
+        3 => 0x3939_3939_3939_3939, // "99999999"
+        4 => 0x3130_3130_3130_3130,
+        _ => r.next_u64(),
+    }
+}
+
 #[inline(never)]
 pub fn stack_poison(pattern: u64, kib: u32) {
     // 4 KiB of u64 per frame, recursion depth kib/4
@@ -133,7 +155,13 @@ pub fn stack_poison(pattern: u64, kib: u32) {
     fn go(pattern: u64, depth: u32) -> u64 {
         let mut buf = [0u64; 512];
         for (i, s) in buf.iter_mut().enumerate() {
-            unsafe { std::ptr::write_volatile(s, pattern.rotate_left(i as u32 & 63) | 1) };
+            // the structured patterns (zero, all-ones, digit bytes) are written verbatim
+            let structured = matches!(
+                pattern,
+                0 | u64::MAX | 0x3030_3030_3030_3030 | 0x3939_3939_3939_3939 | 0x3130_3130_3130_3130 | 0xCFCF_CFCF_CFCF_CFCF | 0xC6C6_C6C6_C6C6_C6C6 | 0xCECF_CECF_CECF_CECF
+            );
+            let v = if structured { pattern } else { pattern.rotate_left(i as u32 & 63) | 1 };
+            unsafe { std::ptr::write_volatile(s, v) };
         }
         let mut acc = unsafe { std::ptr::read_volatile(&buf[(pattern % 512) as usize]) };
         if depth > 0 {
@@ -177,10 +205,10 @@ pub fn execute(case: &ParCase, spec: &SchedSpec, yield_mode: u8) -> RunResult {
                 POp::Parse { world, f64, input, si, sf } => {
                     sched::log_event(sched::OP_CALL_BEGIN, k as u64);
                     let invoke = sched::step();
-                    let (res, counts) = shaped_call(*world, *f64, &case.inputs[*input], si, sf, case.fill);
+                    let (res, counts, exposed) = shaped_call(*world, *f64, &case.inputs[*input], si, sf, case.fill);
                     let ret = sched::step();
                     sched::log_event(sched::OP_CALL_END, k as u64);
-                    out2.lock().unwrap()[t][k] = Some(Outcome { res, counts, invoke, ret });
+                    out2.lock().unwrap()[t][k] = Some(Outcome { res, counts, exposed, invoke, ret });
                     // a switch point between calls
                     sched::force_yield();
                 },
@@ -480,6 +508,14 @@ pub fn run_case(case: &ParCase, stats: &mut Stats, miri: bool) -> Result<ParInfo
                     }
                 },
                 _ => {
+                    if o.exposed > 0 && case.tasks.len() == 1 {
+                        // (hook) a slot of the stack vector that was never written became part of the
+                        // visible slice: in the shipped build those limbs are uninitialised memory
+                        return Err(Violation::new(
+                            "C08/never-written-slot-visible",
+                            format!("{}: {} observation(s) of a visible big-integer limb that still holds the garbage it was created with", describe_call(case, t, k), o.exposed),
+                        ));
+                    }
                     // C08: value or unwinding panic are both fine; the monitors
                     // (ASan, ub-checks, Miri) abort the process on a violation.
                     if let Res::Panic(site) = &o.res {
@@ -507,6 +543,18 @@ pub fn run_case(case: &ParCase, stats: &mut Stats, miri: bool) -> Result<ParInfo
     if prop == "C08" && !miri && case.poison_run.is_some() {
         let mut again = case.clone();
         again.poison_run = case.poison_run.map(|p| p.rotate_left(17) ^ 0xA5A5_5A5A_0F0F_F0F1);
+        // other stale stack contents as well
+        for ops in again.tasks.iter_mut() {
+            for op in ops.iter_mut() {
+                if let POp::StackPoison { pattern, .. } = op {
+                    *pattern = match *pattern {
+                        0x3030_3030_3030_3030 => u64::MAX,
+                        0 => 0x3030_3030_3030_3030,
+                        p => !p,
+                    };
+                }
+            }
+        }
         // and a differently *shaped* garbage: all-ones / all-zero / mixed
         again.poison_mode = match case.poison_mode {
             0 => 1 + (case.poison_run.unwrap_or(0) >> 7 & 1) as u8,
@@ -708,7 +756,7 @@ pub fn gen_case(seed: u64, cfg: &GenCfg) -> ParCase {
         let pinned_world = if r.chance(4, 5) { run_world } else { *r.pick(worlds_under_test) };
         for _ in 0..nops {
             if !cfg.miri && r.chance(1, 6) {
-                ops.push(POp::StackPoison { pattern: r.next_u64(), kib: *r.pick(&[16u32, 32, 64, 128]) });
+                ops.push(POp::StackPoison { pattern: stack_pattern(&mut r), kib: *r.pick(&[16u32, 32, 64, 128]) });
                 continue;
             }
             let input = if sticky {
@@ -955,6 +1003,10 @@ pub fn gen_case_c08(seed: u64, cfg: &GenCfg) -> ParCase {
             )
         };
         inputs.push(inp);
+        if !cfg.miri {
+            // whatever the call leaves uninitialised on its stack overlays this pattern
+            ops.push(POp::StackPoison { pattern: stack_pattern(&mut r), kib: *r.pick(&[8u32, 16, 32]) });
+        }
         ops.push(POp::Parse { world: r.below(N_WORLDS as u64) as u8, f64: is64, input: k, si, sf });
     }
     ParCase {
